@@ -68,14 +68,14 @@ def run(tier, seed):
     with open(first) as f, open(st, "w") as g:
         for i, line in enumerate(f):
             e = json.loads(line)
-            if e["ev"] == "play" and n < 2 and len(e["log"]) > 3 and len(e["out"]) > 1:
+            if e["ev"] == "play" and n < 2 and len(e["log"]) > 3 and len(e["out"]) > 1 and e["log"][0] != e["log"][1]:
                 if n == 0:
                     e["log"][0], e["log"][1] = e["log"][1], e["log"][0]
                 else:
                     e["out"][0] += 1
                 n += 1
             g.write(json.dumps(e) + "\n")
-            if i > 300 or e["ev"] != "track" and e["ev"] != "play":
+            if i > 300 or e["ev"] not in ("track", "play", "seek"):
                 break
     _, _, mm2 = validate(st, "selftest")
     chk.cov["selftest"] = {"corrupted_events": n, "rejected": len(mm2), "ok": len(mm2) >= n and n == 2}
